@@ -36,6 +36,7 @@ def run(W, chk):
     from rules.common import borrow
     borrow(W, chk, "C01", {"PROV-withdraw-same-vector"}, "a withdrawal debits each reserve by exactly what it pays for that asset")
     borrow(W, chk, "C17", {"CUT-status"}, "redemption is gated by the withdrawals switch and by no other")
+    borrow(W, chk, "C14", {"PROV-half", "AGREE-buffer"}, "a single-asset deposit is credited with exactly what was paid in (the half swapped is the half kept)")
     paths, _ = W.variant_paths(PM, "execute")
     for which, vp in [("execute", p) for p in paths] + [("reply", None), ("instantiate", None), ("migrate", None)]:
         A = W.run(PM, which, vp)
@@ -56,6 +57,9 @@ def run(W, chk):
         allops = set().union(*[m[o] for o in src]) if src else set()
         ok = src == {"Query(supply)", "info.funds[*].amount", "Store(POOLS).assets[*].amount"} and "min" in allops and "max" not in allops \
             and "div_ceil" not in allops and "div:r" in m["Store(POOLS).assets[*].amount"] and "div:l" in m["info.funds[*].amount"]
+        unmin = sorted({o for (o, ops) in flat_atoms(e.extra["dargs"][3]) if o in ("info.funds[*].amount", "Store(POOLS).assets[*].amount") and "min" not in ops and "key" not in ops})
+        chk.expect(not unmin, "PROV-cp-shares", "funded pool: every share is bounded", "no per-asset share reaches the mint without passing through the min",
+                   "a per-asset share (%s) can reach the minted amount without passing through `min` (e.g. when the running minimum is still zero)" % unmin, where(e))
         chk.expect(ok, "PROV-cp-shares", "funded pool", "shares = min_i floor(deposit_i * supply / reserve_i)",
                    "constant-product shares computed as %s" % {k: sorted(v) for k, v in m.items()}, where(e))
     # the min is over the shares of two different assets (when they are picked by constant position)
